@@ -145,6 +145,9 @@ func judge(d *Doc, text string) docVerdict {
 		return docVerdict{ok: true}
 	}
 	if ao.err != nil {
+		if d.features().lenient {
+			return docVerdict{ok: true} // `0X1F:` / `0b101:` are not in the grammar: a rejection is right, a wrong id is not
+		}
 		return docVerdict{false, "a grammatical document is rejected", exp, "error: " + firstLine(ao.err.Error()), text}
 	}
 	got := thriftStrNC(ao.ast)
@@ -514,11 +517,27 @@ func (x *runner) reportDoc(d *Doc, v docVerdict) {
 		x.out.Count("oracle:ast-mismatch-again")
 		return
 	}
-	fails := func(c *Doc) bool { return !judge(c, render(c, layCanon, 1)).ok }
+	// the layouts under which a smaller document is tried: the canonical one, and — for failures that need a particular
+	// layout (comment style, line ends, separators) — adversarial and random ones
+	firstFail := func(c *Doc) docVerdict {
+		if w := judge(c, render(c, layCanon, 1)); !w.ok {
+			return w
+		}
+		for seed := uint64(1); seed <= 6; seed++ {
+			if w := judge(c, render(c, layAdversarial, seed)); !w.ok {
+				return w
+			}
+			if w := judge(c, render(c, layRandom, seed)); !w.ok {
+				return w
+			}
+		}
+		return docVerdict{ok: true}
+	}
+	fails := func(c *Doc) bool { return !firstFail(c).ok }
 	min := d
 	if fails(d) {
 		min = shrinkDoc(d, fails)
-		v = judge(min, render(min, layCanon, 1))
+		v = firstFail(min)
 	}
 	key := classOf(min, v)
 	if key == "" {
@@ -662,7 +681,33 @@ func suspects() []*Doc {
 		st(&Field{HasID: true, ID: 99999999999, Type: i32(), Name: "a"}),
 		st(&Field{HasID: true, ID: 1, Type: &Type{Name: "requiredness"}, Name: "x"}),
 		{},
+		aimedIDs(),
 	}
+}
+
+// aimedIDs is a fixed document writing explicit field ids and enum values in every spelling, at every site
+// (struct, union, exception, arguments, throws; enum): zero-padded ids made of octal digits only (`010`, `0012`, `-010`),
+// padded ids with 8 / 9, hex in both cases, 0o-octal, signed.
+func aimedIDs() *Doc {
+	i32 := func() *Type { return &Type{Name: "i32"} }
+	n := 0
+	fld := func(id int64, sp int) *Field {
+		n++
+		return &Field{HasID: true, ID: id, Sp: sp, Type: i32(), Name: fmt.Sprintf("f%d", n)}
+	}
+	imp := func() *Field { n++; return &Field{Type: i32(), Name: fmt.Sprintf("f%d", n)} }
+	ev := func(name string, v int64, sp int) *EnumVal { return &EnumVal{Name: name, HasVal: true, Val: v, Sp: sp} }
+	return &Doc{Defs: []*Def{
+		{Kind: "struct", Name: "Padded", Fields: []*Field{fld(1, spPad3), fld(8, spPad3), fld(9, spLeadZero), fld(10, spLeadZero), fld(11, spPad3), imp(),
+			fld(32, spHex), fld(15, spOct), fld(47, spHexUp), fld(100, spDec), fld(101, spPlus), fld(777, spPad5), imp()}},
+		{Kind: "union", Name: "U", Fields: []*Field{fld(12, spPad5), imp(), fld(63, spLeadZero), imp()}},
+		{Kind: "exception", Name: "X", Fields: []*Field{fld(-10, spLeadZero), fld(-7, spPad3), imp(), fld(77, spPad5)}},
+		{Kind: "service", Name: "Svc", Funcs: []*Func{{Void: true, Name: "call", Args: []*Field{fld(10, spLeadZero), fld(20, spPad3), imp()},
+			HasThrows: true, Throws: []*Field{fld(12, spLeadZero), imp()}}}},
+		// enum values: base-prefixed reading first is the rule there: `010` = 8, `08` = 8, `-010` = -8
+		{Kind: "enum", Name: "E", Vals: []*EnumVal{ev("A", 10, spLeadZero), {Name: "B"}, ev("C", 8, spLeadZero), ev("D", 31, spHex), ev("F", 15, spOct),
+			ev("G", -10, spLeadZero), {Name: "H"}, ev("I", 19, spPad3), ev("J", 7, spPlus), ev("K", 12, spPad5)}},
+	}}
 }
 
 // ---------------------------------------------------------------- run
